@@ -76,13 +76,21 @@ func strEv(at string, b []byte) AEv {
 }
 
 func checkC02(c *Check) {
-	c.Rule = "TLC (RulesGen.tla, alphabet AlphaDocCTE = AlphaDoc + single/multi-line comments + padding + custom text, filter FilterDoc) enumerates every complete document the validator model accepts up to the length bound; each is concretised (boundary integers in every event form, float classes, decimal floats, every time-zone form incl. latitude/longitude, Unicode strings, typed arrays, chunked delivery) and driven rules -> cte.Encoder -> text -> cte.Decoder -> rules; NormCTE(in) = NormCTE(out) (padding dropped, comments kept with their text). Sweeps: every Unicode scalar value in strings, resource ids, remote references, custom text and comments; every latitude and every longitude in hundredths; binary floats by bit pattern (subnormals, boundaries, random) and big floats beyond float64. non-trivial = contains a container, array, comment; distinct = (abstract document, concretisation) or sweep item"
+	c.Rule = "TLC (RulesGen.tla, alphabet AlphaDocCTE = AlphaDoc + single/multi-line comments + padding + custom text, filter FilterDoc) enumerates every complete document the validator model accepts up to the length bound, and random complete documents of up to 26 events (TLC -simulate over the same generator); each is concretised (boundary integers in every event form, float classes, decimal floats, every time-zone form incl. latitude/longitude, Unicode strings, typed arrays, chunked delivery) and driven rules -> cte.Encoder -> text -> cte.Decoder -> rules; NormCTE(in) = NormCTE(out) (padding dropped, comments kept with their text). Sweeps: every Unicode scalar value in strings, resource ids, remote references, custom text and comments; every latitude and every longitude in hundredths; binary floats by bit pattern (subnormals, boundaries, random) and big floats beyond float64; layout coincidences (nesting depth x comment position x column after an embedded line feed x comment length). non-trivial = contains a container, array, comment; distinct = (abstract document, concretisation) or sweep item"
 	c.Assumptions = []string{"harness abs/concretiser/normaliser (abs.go, values.go, norm.go)", "TLC", "comment texts are those the text format can express (single-line: no line break; multi-line: balanced delimiters); others are probed separately", "zero-valued times and OnNegativeInt(0) are not generated"}
 	maxLen, reps := 5, 2
 	if c.Tier == "thorough" {
 		maxLen, reps = 6, 3
 	}
 	docs := genCorpusFrom(c, "AlphaDocCTE", "FilterDoc", "<<EvBD, EvVer(0)>>", maxLen, "cte corpus")
+	// long random documents: comments, markers and containers at every depth and position
+	nWalks := 1500
+	if c.Tier == "thorough" {
+		nWalks = 20000
+	}
+	for _, prefix := range []string{"<<EvBD, EvVer(0)>>", "<<EvBD, EvVer(0), EvList>>", "<<EvBD, EvVer(0), EvMap>>", "<<EvBD, EvVer(0), EvNode>>", "<<EvBD, EvVer(0), EvRT(\"a\"), EvEnd, EvList>>"} {
+		docs = append(docs, genCorpusWalks(c, "AlphaDocCTE", "FilterDoc", prefix, 24, nWalks/5, "cte walks")...)
+	}
 	var skipped int64
 	var mu sync.Mutex
 	o := normOpts{DropPadding: true}
@@ -390,6 +398,81 @@ func checkC02(c *Check) {
 		}
 	}
 	flushF()
+
+	// sweep 4: layout coincidences.  The encoder's decorators look at the current column; a
+	// string holding a line feed resets it, so the column after a comment can be made to take
+	// every small value: depth x position x tail length after the line feed x comment length.
+	{
+		mkStr := func(tail int) AEv { return strEv("string", []byte("k\n"+strings.Repeat("t", tail))) }
+		cmt := func(multi bool, n int) AEv {
+			e := newEv("OnComment")
+			e.Multi, e.Bytes = multi, bytesToInts([]byte(strings.Repeat("c", n)))
+			return e
+		}
+		ev := func(m, dt string) AEv { e := newEv(m); e.DT = dt; return e }
+		one := intEv("OnInt", "int", "1")
+		end := newEv("OnEndContainer")
+		maxTail, maxCmt := 9, 9
+		if c.Tier == "thorough" {
+			maxTail, maxCmt = 14, 14
+		}
+		var wg2 sync.WaitGroup
+		sem2 := make(chan struct{}, 16)
+		for depth := 0; depth <= 3; depth++ {
+			for tail := 0; tail <= maxTail; tail++ {
+				for cl := 0; cl <= maxCmt; cl++ {
+					for _, multi := range []bool{false, true} {
+						depth, tail, cl, multi := depth, tail, cl, multi
+						wg2.Add(1)
+						sem2 <- struct{}{}
+						go func() {
+							defer wg2.Done()
+							defer func() { <-sem2 }()
+							cfg := configuration.New()
+							k, cm := mkStr(tail), cmt(multi, cl)
+							shapes := [][]AEv{
+								// map value is a node / list / map / edge whose first item is a comment
+								{ev("OnMap", "map"), k, ev("OnNode", "node"), cm, one, one, end, end},
+								{ev("OnMap", "map"), k, ev("OnList", "list"), cm, one, end, end},
+								{ev("OnMap", "map"), k, ev("OnMap", "map"), cm, one, one, end, end},
+								{ev("OnMap", "map"), k, ev("OnEdge", "edge"), cm, one, one, one, end, end},
+								// comment between key and value, after a value, before the end
+								{ev("OnMap", "map"), k, cm, one, end},
+								{ev("OnMap", "map"), k, one, cm, end},
+								{ev("OnList", "list"), k, cm, one, end},
+								{ev("OnNode", "node"), k, cm, one, end},
+								{ev("OnNode", "node"), cm, k, cm, one, cm, end},
+								{ev("OnEdge", "edge"), k, cm, one, cm, one, end},
+							}
+							for si, body := range shapes {
+								var doc []AEv
+								for i := 0; i < depth; i++ {
+									doc = append(doc, ev("OnList", "list"))
+								}
+								doc = append(doc, body...)
+								for i := 0; i < depth; i++ {
+									doc = append(doc, end)
+								}
+								evs := wrapDoc(doc...)
+								text, problem, accepted := cteRoundTrip(c, evs, cfg, o)
+								c.Count(fmt.Sprintf("layout|%d|%d|%d|%v|%d", depth, tail, cl, multi, si), true)
+								if !accepted {
+									machineryFail("C02 layout sweep: stream not accepted: %s: %s", evsString(evs), problem)
+								}
+								if problem != "" {
+									c.Violation(fmt.Sprintf("CTE round trip: %s; text %q; stream %s", problem, text, evsString(evs)),
+										map[string]interface{}{"kind": "cte-roundtrip", "events": evs, "text": string(text), "problem": problem})
+								} else {
+									c.AddTraces(1)
+								}
+							}
+						}()
+					}
+				}
+			}
+		}
+		wg2.Wait()
+	}
 
 	// probe: comment texts the text format cannot express are recorded, not generated above
 	for _, pr := range []struct {
